@@ -1111,6 +1111,17 @@ impl<'a> RepositoryUpdate<'a> {
             }
         }
 
+        // The deltas need to be consecutive. If there are gaps (or
+        // duplicates), we would silently miss (or re-apply) changes.
+        if deltas.windows(2).any(|pair| {
+            pair[0].serial().checked_add(1) != Some(pair[1].serial())
+        }) {
+            self.log.debug(format_args!(
+                "Delta list is not consecutive."
+            ));
+            return Err(SnapshotReason::BadDeltaSet)
+        }
+
         if deltas.len() > self.collector.config.max_delta_count {
             self.log.debug(format_args!(
                 "Too many delta steps required ({})", deltas.len()
